@@ -15,6 +15,7 @@
 #include <time.h>
 #include <isal_crypto_api.h>
 #include <aes_keyexp.h>
+#include <aes_cbc.h>
 #include <sha256_mb.h>
 
 extern int asm_check_self_tests_status(void);
@@ -77,8 +78,11 @@ static int first_call(int kind, int me)
 {
         if (kind == 0) return isal_self_tests();
         if (kind == 1 && !g_noarch) { uint8_t key[16] = { 1 }, e[176], d[176]; return isal_aes_keyexp_128(key, e, d); }
+        if (kind == 3 && !g_noarch) { static uint8_t z[64] __attribute__((aligned(16))), o[64][16]; return isal_aes_cbc_dec_192(z, z + 16, z, o[me], 0); }      /* a zero-length message: early exits must not skip the gate */
+        if (kind == 4 && !g_noarch) { static uint8_t z[512] __attribute__((aligned(16))), o[64][16]; return isal_aes_cbc_enc_128(z, z + 16, z + 32, o[me], 16); }
         return isal_sha256_ctx_mgr_init(&mgrs[me]);
 }
+static const char *kind_name(int k) { return k == 0 ? "isal_self_tests" : k == 1 ? "isal_aes_keyexp_128" : k == 3 ? "isal_aes_cbc_dec_192(len 0)" : k == 4 ? "isal_aes_cbc_enc_128" : "isal_sha256_ctx_mgr_init"; }
 
 /* ================================================================== controlled schedules */
 #define MAXT 4
@@ -189,9 +193,7 @@ static void sample_schedule(const char *modes, uint64_t c)
         if (sampled || ntrace < 8) return;
         sampled = 1; clog_on = 1;
         clog_title("%s schedule case %llu: %d threads make their first library call under the trap flag; injected verdict %s; calls: %s %s %s %s", modes, (unsigned long long) c, nthr,
-                   verdict_fail ? "fail" : "pass", kinds[0] == 0 ? "isal_self_tests" : kinds[0] == 1 ? "isal_aes_keyexp_128" : "isal_sha256_ctx_mgr_init",
-                   nthr > 1 ? (kinds[1] == 0 ? "isal_self_tests" : kinds[1] == 1 ? "isal_aes_keyexp_128" : "isal_sha256_ctx_mgr_init") : "", nthr > 2 ? (kinds[2] == 0 ? "isal_self_tests" : kinds[2] == 1 ? "isal_aes_keyexp_128" : "isal_sha256_ctx_mgr_init") : "",
-                   nthr > 3 ? (kinds[3] == 0 ? "isal_self_tests" : kinds[3] == 1 ? "isal_aes_keyexp_128" : "isal_sha256_ctx_mgr_init") : "");
+                   verdict_fail ? "fail" : "pass", kind_name(kinds[0]), nthr > 1 ? kind_name(kinds[1]) : "", nthr > 2 ? kind_name(kinds[2]) : "", nthr > 3 ? kind_name(kinds[3]) : "");
         for (int i = 0; i + 1 < ntrace && i < 60; i += 2) clog_event("after protocol instruction %d (mod 256): CPU handed to thread %d", sched_trace[i + 1], sched_trace[i]);
         clog_event("observed: %llu single steps, %llu at protocol instructions; AES self-tests entered %d time(s), SHA %d time(s); verdict published at logical time %llu, self-tests left at %llu",
                    (unsigned long long) gstep, (unsigned long long) pstep, n_aes, n_sha, (unsigned long long) publish_clk, (unsigned long long) t_selftest_exit);
@@ -222,7 +224,7 @@ static void mode_sched(void)
                         rng_seed(&sched_rng, mix64(g_seed ^ 0x5c4ed, c));
                         nthr = 2 + (int) rng_below(&sched_rng, 3);
                         verdict_fail = (int) rng_below(&sched_rng, 3);
-                        for (int i = 0; i < nthr; i++) kinds[i] = rng_below(&sched_rng, 3) ? 0 : 1 + (int) rng_below(&sched_rng, 2);
+                        for (int i = 0; i < nthr; i++) kinds[i] = rng_below(&sched_rng, 3) ? 0 : 1 + (int) rng_below(&sched_rng, 4);
                         sw_pct = 2 + (int) rng_below(&sched_rng, 40); npre = -1;
                         snprintf(rb, sizeof rb, "{\"engine\":\"fipssched\",\"mode\":\"sched\",\"seed\":%llu,\"case\":%llu}", (unsigned long long) g_seed, (unsigned long long) c);
                         snprintf(cur_replay, sizeof cur_replay, "%s", rb);
@@ -316,7 +318,7 @@ static void mode_stress(void)
                 int stall = (c == g_from + 3 && arg_int("--stall-s", 0) > 0);
                 if (stall) { stall_us = (unsigned) arg_int("--stall-s", 0) * 1000000u; if (active_n < 3) active_n = 3; out_count("stress_long_stall_rounds", 1); } else stall_us = 0;
                 stub_spin = rng_below(&r, 3) ? (int) rng_below(&r, 400) : (int) rng_below(&r, 20000);
-                for (int i = 0; i < active_n; i++) { kind_of[i] = rng_below(&r, 2) ? 0 : 1 + (int) rng_below(&r, 2); delay_of[i] = rng_below(&r, 2) ? 0 : (int) rng_below(&r, 300); rc_of[i] = -99; }
+                for (int i = 0; i < active_n; i++) { kind_of[i] = rng_below(&r, 2) ? 0 : 1 + (int) rng_below(&r, 4); delay_of[i] = rng_below(&r, 2) ? 0 : (int) rng_below(&r, 300); rc_of[i] = -99; }
                 n_aes = n_sha = 0; clk = 0; t_selftest_exit = 0;
                 set_status(2);
                 snprintf(rb, sizeof rb, "{\"engine\":\"fipssched\",\"mode\":\"stress\",\"seed\":%llu,\"case\":%llu}", (unsigned long long) g_seed, (unsigned long long) c);
@@ -360,7 +362,7 @@ static void mode_stress(void)
                                    verdict_fail ? "fail" : "pass", run_real ? "real" : "stub");
                         clog_event("observed: AES self-tests entered %d time(s), SHA %d time(s); self-tests left at logical time %llu; status afterwards %u", n_aes, n_sha, (unsigned long long) t_selftest_exit, *status_var);
                         for (int i = 0; i < active_n && i < 40; i++) clog_event("observed: thread %d (%s, start delay %d) returned %d at logical time %llu", i,
-                                kind_of[i] == 0 ? "isal_self_tests" : kind_of[i] == 1 ? "isal_aes_keyexp_128" : "isal_sha256_ctx_mgr_init", delay_of[i], rc_of[i], (unsigned long long) rclk_of[i]);
+                                kind_name(kind_of[i]), delay_of[i], rc_of[i], (unsigned long long) rclk_of[i]);
                         clog_on = 0;
                   } }
                 out_count("stress_rounds", 1); out_count("stress_thread_calls", (uint64_t) active_n);
